@@ -1176,6 +1176,8 @@ def check_C18(rep, tier):
             continue
         if r.get("order_dependent"):
             rep.mismatch({"kind": "depends_on_order_of_strip_prefixes"}, mk)
+        if r.get("second_recording_differs"):
+            rep.mismatch({"kind": "second_recording_after_rewrite_differs"}, mk)
         if r.get("dot_root_differs"):
             rep.mismatch({"kind": "recording_from_inside_the_directory_differs", "argument": r["dot_root_differs"].get("argument")}, mk)
         if out == "err":
